@@ -500,6 +500,11 @@ class Interp:
                 return Comp(lin=x)
             if k == "structelem":
                 return v.cont.read(v.key)
+            if k == "carrayelem":
+                x = v.arr[1][v.i]
+                if x is None:
+                    raise Unsupported("read of an unset element of a built-in array")
+                return x
             if k == "scalrange":
                 # a run of scalar slots read as one vector-valued quantity: DIM slots are a vector atom, any other length
                 # an opaque scalar-indexed value seg(container, start, count)
@@ -625,7 +630,20 @@ class Interp:
             self.assign(r, old + (1 if op == "++" else -1), e)
             return old if e.get("postfix") else old + (1 if op == "++" else -1)
         if op == "*":
-            return self.evl(e["e"], env)
+            v = self.evl(e["e"], env)
+            if isinstance(v, Ref) and v.kind in ("var", "carrayelem"):
+                pv = self.load(v)
+                if isinstance(pv, tuple) and pv and pv[0] == "ptr":
+                    return pv[1]
+            if isinstance(v, tuple) and v and v[0] == "ptr":
+                return v[1]
+            return v
+        if op == "&":
+            # address of an lvalue the interpreter tracks: a pointer value carrying the reference
+            r = self.evl(e["e"], env)
+            if isinstance(r, (Ref, Container, Struct, BlockVec, SmallMat)):
+                return ("ptr", r)
+            raise Unsupported("address of %s" % type(r).__name__)
         raise Unsupported("unary " + op)
 
     def neg(self, v):
@@ -793,6 +811,16 @@ class Interp:
         return r
 
     def e_subscript(self, e, env):
+        base = self.evl(e["base"], env)
+        arr = self.load(base) if isinstance(base, Ref) else base
+        if isinstance(arr, tuple) and arr and arr[0] == "carray":
+            idx = self.ev(e["idx"], env)
+            idx = sp.sympify(idx)
+            if not idx.is_Integer:
+                raise Unsupported("built-in array indexed by %s (not a constant on this path)" % idx)
+            if not (0 <= int(idx) < len(arr[1])):
+                raise Unsupported("built-in array index %s outside [0, %d)" % (idx, len(arr[1])))
+            return Ref("carrayelem", arr=arr, i=int(idx))
         raise Unsupported("builtin subscript")
 
     def e_ctor(self, e, env):
@@ -1611,6 +1639,9 @@ class Interp:
                 self.range_count = None
             self.effects_ranges.append((r.cont.name, r.start, r.count, v.vec, node.get("line") if isinstance(node, dict) else None))
             return
+        if k == "carrayelem":
+            r.arr[1][r.i] = v
+            return
         if k == "structelem":
             if not isinstance(v, Struct):
                 raise Unsupported("struct element assigned from %s" % type(v).__name__)
@@ -1689,6 +1720,10 @@ class Interp:
         init = s.get("init")
         self.decl_depth[s["id"]] = len(self.loop_stack)
         if init is None:
+            n_ = str(ty.get("n", ""))
+            if n_.endswith("]") and "[" in n_ and n_[n_.rindex("[") + 1:-1].isdigit():
+                env[s["id"]] = ("carray", [None] * int(n_[n_.rindex("[") + 1:-1]))
+                return
             env[s["id"]] = self.make_value(s["name"], ty, symbolic=False)
             return
         if s.get("bind") == "alias" and ty.get("c") == "record" and ty.get("n") in self.alias_records:
@@ -1852,6 +1887,24 @@ class Interp:
         init, cond, step = self.loop_header(s, env)
         lo = self.ev(init["init"], env)
         name = init["name"]
+        # a loop with a small constant trip count whose body subscripts a built-in array (a table of pointers / flags)
+        # is run iteration by iteration: the table has no symbolic element
+        if (isinstance(lo, sp.Basic) and sp.sympify(lo).is_Integer and cond and cond.get("k") == "bin" and cond["op"] in ("<", "<=") and step == 1
+                and any(n_.get("k") == "subscript" for n_ in walk(s["body"]))):
+            try:
+                hi_ = sp.sympify(self.ev(cond["r"], env))
+            except Unsupported:
+                hi_ = None
+            if hi_ is not None and hi_.is_Integer and cond["l"].get("k") == "var" and cond["l"].get("id") == init["id"]:
+                last = int(hi_) - (1 if cond["op"] == "<" else 0)
+                if last - int(lo) < 32:
+                    for k_ in range(int(lo), last + 1):
+                        env[init["id"]] = Integer(k_)
+                        try:
+                            self.exec(s["body"], env)
+                        except _Continue:
+                            pass
+                    return
         # component loop?  for (int j = 0; j < DIM; ++j)
         is_comp = False
         c = cond
